@@ -8,6 +8,7 @@ import math
 import typing
 import logging
 import itertools
+from .. import _verif_trace
 
 
 class Operator(abc.ABC):
@@ -57,6 +58,8 @@ class NullaryOperator(Operator):
                 raise TypeError("Invalid element for nullary set operator: %r" % x)
 
     def modulo(self, divisor: int) -> typing.Set[int]:
+        if _verif_trace.ENABLED:
+            _verif_trace.emit("modulo", op="leaf", d=divisor, n=len(self._value))
         return set(map(lambda x: x % divisor, self._value))
 
     @property
@@ -68,6 +71,8 @@ class NullaryOperator(Operator):
         return max(self._value)
 
     def expand(self) -> typing.Set[int]:
+        if _verif_trace.ENABLED:
+            _verif_trace.emit("expand", op="leaf", size=len(self._value))
         return set(self._value)
 
     def __repr__(self) -> str:
@@ -89,6 +94,8 @@ class PaddingOperator(Operator):
         r = self._padding
         mx = self.max
         lcm = least_common_multiple(r, divisor)
+        if _verif_trace.ENABLED:
+            _verif_trace.emit("modulo", op="pad", d=divisor, r=r, lcm=lcm)
         out = set()  # type: typing.Set[int]
         for x in self._child.modulo(lcm):
             assert x <= mx and x < lcm
@@ -130,6 +137,8 @@ class ConcatenationOperator(Operator):
         # The computational complexity is tightly bounded because the cardinality of the modulus set is less than
         # the bit length operand.
         mods = [ch.modulo(divisor) for ch in self._children]
+        if _verif_trace.ENABLED:
+            _verif_trace.emit("modulo", op="cat", d=divisor, sizes=[len(m) for m in mods])
         prod = itertools.product(*mods)
         sums = set(map(sum, prod))
         return {x % divisor for x in sums}
@@ -170,6 +179,17 @@ class RepetitionOperator(Operator):
         # etc.
         equivalent_k = min(self._k, divisor + self._k % divisor)
         assert (self._k % divisor) == (equivalent_k % divisor), (divisor, self._k)
+        if _verif_trace.ENABLED:
+            _verif_trace.emit(
+                "modulo",
+                op="rep",
+                d=divisor,
+                k=str(self._k),
+                kmod=self._k % divisor,
+                big=self._k >= 2 * divisor,
+                keq=equivalent_k,
+                n=len(self._child.modulo(divisor)),
+            )
         return {
             (sum(el) % divisor)
             for el in itertools.combinations_with_replacement(self._child.modulo(divisor), equivalent_k)
@@ -207,6 +227,17 @@ class RangeRepetitionOperator(Operator):
         # This holds only if the argument does not contain repeated entries which is guaranteed by `set`.
         equivalent_k_max = min(self._k_max, divisor + self._k_max % divisor)
         assert (self._k_max % divisor) == (equivalent_k_max % divisor), (divisor, self._k_max)
+        if _verif_trace.ENABLED:
+            _verif_trace.emit(
+                "modulo",
+                op="rng",
+                d=divisor,
+                k=str(self._k_max),
+                kmod=self._k_max % divisor,
+                big=self._k_max >= 2 * divisor,
+                keq=equivalent_k_max,
+                n=len(single),
+            )
         out = set()  # type: typing.Set[int]
         for k in range(equivalent_k_max + 1):
             for el in itertools.combinations_with_replacement(single, k):
@@ -241,6 +272,8 @@ class UnionOperator(Operator):
             raise ValueError("This operator is not defined on zero operands")
 
     def modulo(self, divisor: int) -> typing.Set[int]:
+        if _verif_trace.ENABLED:
+            _verif_trace.emit("modulo", op="uni", d=divisor, n=len(self._children))
         out = set()  # type: typing.Set[int]
         for x in self._children:
             out |= x.modulo(divisor)
@@ -305,6 +338,8 @@ class MemoizationOperator(Operator):
             # Nunavut to the new solver API instead of numerical methods. It may be removed later.
             started_at = monotonic()
             self._expansion = self._child.expand()
+            if _verif_trace.ENABLED:
+                _verif_trace.emit("expand", op="memo", size=len(self._expansion))
             elapsed = monotonic() - started_at
             if elapsed > 2.0:  # pragma: no cover
                 _logger.info(
